@@ -83,6 +83,13 @@ const STATEMENTS: &[(&str, &[&str])] = &[
     ("y := (c += 1) > 0 && b", &["y"]),
     ("y := (c += 1) > 0 || !b", &["y"]),
     ("y := if (c += 1) > 0 && b { 1 } else { 2 }", &["y"]),
+    // a function of an earlier input whose parameters are spelled like top-level names, called with
+    // arguments that read those names while they hold run-time values of the same input: every
+    // argument is evaluated in the caller's scope, whatever the parser knows about the callee
+    ("h := (x: int, y: int) -> int { return x * 10 + y }", &["h"]),
+    ("x := std.len([0, 0])", &["x"]),
+    ("y := h(7, x)", &["y"]),
+    ("y := h(x + 1, h(2, x))", &["y"]),
 ];
 
 fn dump_vars(interp: &Interpreter, names: &BTreeSet<String>) -> String {
